@@ -13,22 +13,33 @@
     validity of the sequences it returns is decided per run by the reference oracle,
     and the quantifier over timer interleavings is outside any executable model.
 
-    The full statement [gate_implies_supported]
-
-      forall s p k, gate s = Accept p -> In k (sm_constraints s) -> user_kind k = true ->
-                    In k (p_handed p)
-
-    ("everything the gate lets through is enforced by the core") is FALSE of the model,
-    as it is of the code: [C29_gate_refuted] and its siblings; the true part is
-    [C29_gate_refuses_unsupported] / [C29_refused_never_ignored].  Likewise the length:
-    [C29_sm_length] holds for plain CrossBlocks whose first non-derived design factor is
-    crossed; [C29_sm_length_repeat_refuted], [C29_sm_length_uncrossed_refuted] are the
-    failing cases.  Proofs: SM/SMGateProofs.v. *)
+    Totality of the gate.  No constraint object is ever handed to the core, so a design
+    may pass only if each of its constraints is realised by the core's own machinery
+    ([realised_kind]: Cross = the crossing, Consistency = the shape of the columns,
+    Derivation = the derived levels, Reify restricts nothing, MinimumTrials = the weight
+    trick, ContinuousConstraint = enforced by the caller on the continuous samples).
+    Until /repo commit cac238c this was FALSE of the code and of the model: the isinstance
+    chain refused AtMostKInARow / AtLeastKInARow / ExactlyK / Exclude / Pin only, and
+    ExactlyKInARow, ExactlyKMultipleInARow, Sequential, LatinSquare passed and were ignored
+    (former theorems C29_gate_refuted, _refuted_sequential, _refuted_latin; their witnesses
+    [witness_with k] were replayed on the real code, which returned sequences violating
+    the constraint: findings smgen:ignored:<Kind>).  REPAIRED in cac238c: the chain lists
+    the four classes too; the model follows ([refused_kind]), the witnesses are refused
+    ([C29_former_witnesses_refused]) and the statement is a theorem: [C29_gate_total].  Its
+    only exceptions are not user constraints: the internal Sustain (written by Nest; a Nest
+    of a crossed outer and an uncrossed inner block has one crossing and passes:
+    [C29_gate_sustain_refuted], replayed on the real code) and classes unknown to
+    constraint.py.
+    Length: [C29_sm_length] holds for plain CrossBlocks whose first non-derived design
+    factor is crossed; [C29_sm_length_repeat_refuted], [C29_sm_length_uncrossed_refuted]
+    are the failing cases (open findings smgen:length:Repeat, smgen:length:CrossBlock).
+    Proofs: SM/SMGateProofs.v. *)
 From Coq Require Import List Bool Arith.
 From SP Require Import SM.SMGate SM.SMGateProofs.
 Import ListNotations.
 
-(** a design with an AtMostKInARow, AtLeastKInARow, ExactlyK, Exclude or Pin constraint is refused *)
+(** a design with an AtMostKInARow, AtLeastKInARow, ExactlyK, ExactlyKInARow, ExactlyKMultipleInARow,
+    LatinSquare, Sequential, Exclude or Pin constraint is refused, with the first such entry *)
 Theorem C29_gate_refuses_unsupported : forall s k,
   sm_is_block s = true -> sm_ncrossings s = 1 ->
   In k (sm_constraints s) -> refused_kind k = true ->
@@ -56,31 +67,65 @@ Print Assumptions C29_refused_never_ignored.
 Example C29_refuse_example :
   gate {| sm_is_block := true; sm_ncrossings := 1; sm_constraints := [KCross; KConsistency; KSequential; KPin; KAtMost];
           sm_crossing_weight := 1; sm_trials := 4; sm_design := [plain_factor 2; plain_factor 2]; sm_crossing := [0; 1] |}
-  = Refuse (RConstraint KPin).
+  = Refuse (RConstraint KSequential).   (* the first refused entry; KPin before cac238c *)
 Proof. reflexivity. Qed.
 
-(** an accepted design: no refused kind, nothing is handed to the core, every user constraint is ignored *)
+(** an accepted design: no refused kind, nothing is handed to the core; [p_ignored] = the entries the
+    core's machinery does not realise either *)
 Theorem C29_gate_hands_nothing : forall s p, gate s = Accept p ->
   sm_ncrossings s = 1 /\ (forall k, In k (sm_constraints s) -> refused_kind k = false) /\
-  p_handed p = [] /\ p_ignored p = filter user_kind (sm_constraints s).
+  p_handed p = [] /\ p_ignored p = filter (fun k => negb (realised_kind k)) (sm_constraints s).
 Proof. exact SMGateProofs.gate_accept_facts. Qed.
 Print Assumptions C29_gate_hands_nothing.
 
-(** REFUTED: a design with ExactlyKInARow (Sequential, LatinSquare) passes the gate although the
-    constraint is not handed to the core *)
-Theorem C29_gate_refuted : exists s p,
-  gate s = Accept p /\ In KExactlyKInARow (sm_constraints s) /\ user_kind KExactlyKInARow = true /\
-  ~ In KExactlyKInARow (p_handed p) /\ p_length p = sm_trials s /\ ignored_by_gate s KExactlyKInARow = true.
-Proof. exact SMGateProofs.gate_refuted. Qed.
-Print Assumptions C29_gate_refuted.
+(** the support test lists exactly the user constraint classes *)
+Theorem C29_user_kinds_refused : forall k, user_kind k = refused_kind k.
+Proof. exact SMGateProofs.user_kind_refused. Qed.
+Print Assumptions C29_user_kinds_refused.
 
-Theorem C29_gate_refuted_sequential : exists s, ignored_by_gate s KSequential = true.
-Proof. exact SMGateProofs.gate_refuted_sequential. Qed.
-Print Assumptions C29_gate_refuted_sequential.
+(** TOTAL (since cac238c): an accepted design has no user constraint; each of its constraints is
+    realised by the core's machinery, or is the internal Sustain, or of an unknown class; what is
+    ignored is Sustain / unknown only; without those nothing is ignored *)
+Theorem C29_gate_total : forall s p, gate s = Accept p ->
+  (forall k, In k (sm_constraints s) -> user_kind k = false /\ (realised_kind k = true \/ k = KSustain \/ k = KOther)) /\
+  (forall k, In k (p_ignored p) -> k = KSustain \/ k = KOther) /\
+  (~ In KSustain (sm_constraints s) -> ~ In KOther (sm_constraints s) ->
+   p_ignored p = [] /\ forall k, ignored_by_gate s k = false).
+Proof. exact SMGateProofs.gate_total. Qed.
+Print Assumptions C29_gate_total.
 
-Theorem C29_gate_refuted_latin : exists s, ignored_by_gate s KLatin = true.
-Proof. exact SMGateProofs.gate_refuted_latin. Qed.
-Print Assumptions C29_gate_refuted_latin.
+Theorem C29_ignored_only_sustain_other : forall s k, ignored_by_gate s k = true -> k = KSustain \/ k = KOther.
+Proof. exact SMGateProofs.ignored_only_sustain_other. Qed.
+Print Assumptions C29_ignored_only_sustain_other.
+
+(** the witnesses of the repaired defect (CrossBlock([f,g],[f,g],[c]), c of kind k) are refused now,
+    for every user kind; with a realised kind in its place the design is accepted, nothing ignored *)
+Theorem C29_former_witnesses_refused : forall k, user_kind k = true -> gate (witness_with k) = Refuse (RConstraint k).
+Proof. exact SMGateProofs.witness_with_user_refused. Qed.
+Print Assumptions C29_former_witnesses_refused.
+
+Theorem C29_witness_realised_accepted : forall k, realised_kind k = true ->
+  exists p, gate (witness_with k) = Accept p /\ p_ignored p = [] /\ p_length p = 4.
+Proof. exact SMGateProofs.witness_with_realised_accepted. Qed.
+Print Assumptions C29_witness_realised_accepted.
+
+Example C29_gate_total_example :
+  exists p, gate (witness_with KMinimumTrials) = Accept p /\ p_handed p = [] /\ p_ignored p = [] /\
+            ignored_by_gate (witness_with KMinimumTrials) KMinimumTrials = false.
+Proof. eexists. split; [vm_compute; reflexivity|]. repeat split. Qed.
+
+Example C29_former_witness_example : gate (witness_with KExactlyKInARow) = Refuse (RConstraint KExactlyKInARow) /\
+  gate (witness_with KSequential) = Refuse (RConstraint KSequential) /\ gate (witness_with KLatin) = Refuse (RConstraint KLatin).
+Proof. repeat split. Qed.
+
+(** REFUTED without the Sustain exception: Nest(CrossBlock([f],[f],[]), CrossBlock([g],[],[MinimumTrials(3)]))
+    has one crossing and passes the gate; Sustain is not handed to the core and the columns have 2 of
+    the 6 documented entries *)
+Theorem C29_gate_sustain_refuted : exists s p,
+  gate s = Accept p /\ In KSustain (sm_constraints s) /\ ~ In KSustain (p_handed p) /\ In KSustain (p_ignored p) /\
+  ignored_by_gate s KSustain = true /\ p_length p = 2 /\ sm_trials s = 6.
+Proof. exact SMGateProofs.gate_sustain_refuted. Qed.
+Print Assumptions C29_gate_sustain_refuted.
 
 (** length of the returned sequences of an accepted plain CrossBlock: [base_size] is the crossing
     size, [preamble] = 1 iff a transition is crossed; the three arithmetic hypotheses are the
